@@ -141,6 +141,26 @@ def run(ctx):
         generic_pipeline_check(ctx, [], c06.plural_fallback_family(rng, ctx.budget(150, 4000)), c06.plural_fallback_oracle, "C05-literal-count-category")
     finally:
         proj.literal_operands = orig
+    # the `t*_plural*!` macro family at run time: every flavour picks the CLDR category of its own rule type (ICU4X called directly)
+    binc = cargo_build(ctx, "ctx_h")
+    if binc is not None:
+        counts = list(range(0, 32)) + [100, 101, 102, 103, 111, 112, 113, 1000, 1000000]
+        rows, _ = run_lines(binc, [{"op": "plural_macros", "locale": l, "counts": counts} for l in ("en", "en-US", "fr", "fr-CA", "de")])
+        for l, r in zip(("en", "en-US", "fr", "fr-CA", "de"), rows):
+            if "rows" not in r:
+                report_violation(ctx, "plural-macros:panics", {"case": {"op": "plural_macros", "locale": l}, "impl": r})
+                continue
+            for row in r["rows"]:
+                ctx.seen({"plural_macros": l, "count": row["count"]}, nontrivial=row["cldr_cardinal"] != row["cldr_ordinal"])
+                for mac in ("td_plural", "t_plural", "tu_plural", "td_plural_ordinal", "t_plural_ordinal", "tu_plural_ordinal"):
+                    exp = row["cldr_ordinal" if mac.endswith("_ordinal") else "cldr_cardinal"]
+                    ctx.count("plural_macro:" + mac)
+                    if row[mac] != exp:
+                        report_violation(ctx, "plural-macros:wrong-category", {
+                            "case": {"macro": mac + "!", "locale": l, "count": row["count"]}, "expected_by_spec": exp, "implementation": row[mac],
+                            "why": "the macro matches on the %s plural category of the count in the current locale" % ("ordinal" if mac.endswith("_ordinal") else "cardinal"),
+                            "harness": "ctx_h plural_macros (ICU4X PluralRules called directly as oracle)"})
+                        break
     # compiled code: ordinal and cardinal keys rendered by td_string! / td_display! / td! over locales with different CLDR patterns
     probe.run_render_probe(ctx, rng, n_crates=ctx.budget(1, 3), flavours=("string", "display", "view"), sig_prefix="plurals", per_key=4,
                            opts={"locales": ["en", "fr", "cy", "ru"], "long_key": False})     # en/cy have rich ordinal rules, ru rich cardinal ones
